@@ -30,7 +30,8 @@ def neigh_block(args):
     lat = [np.array([v]) for v in (-1.0, -0.5, 0.0, 0.5, 1.0)] if D == 1 else [np.array(p) for p in itertools.product((-1.0, 0.0, 1.0), repeat=2)]
     ls = 1.0 if ls_kind == "scalar" else np.array([0.5, 2.0][:D])
     opts = {"gp_radius": radius, "n_train_max": nmax_opt, "n_train_min": nmin, "buffer_ntrain": buf}
-    gp = types.SimpleNamespace(temporary_data={"len_scale": ls, "effective_radius": 1.0})
+    # (the poll scale is a different, clamped rescaling of the length scale: present, and deliberately not proportional to it)
+    gp = types.SimpleNamespace(temporary_data={"len_scale": ls, "effective_radius": 1.0, "poll_scale": (np.array([4.0, 0.25][:D]) if ls_kind != "scalar" else 1.0)})
     bad = {}
     n = 0
     for r in range(1, maxpts + 1):
